@@ -45,6 +45,7 @@ type Trace struct {
 	Abort    string // barrier / watchdog failure: the rest of the history was not executed
 	SMFIPs   []string
 	SMFAddrs [][]string
+	NoRemRep bool // the data plane returned no final report on removals (C12's report expectations do not apply)
 }
 
 var Timing = os.Getenv("VERIF_TIMING") != ""
@@ -62,7 +63,7 @@ type Runner struct {
 
 // Run executes one history with the given fault plan.
 func (rn *Runner) Run(h *History, faults map[int]string) *Trace {
-	tr := &Trace{H: h, Faults: faults}
+	tr := &Trace{H: h, Faults: faults, NoRemRep: rn.NoRemoveReport}
 	var inner forwarder.Driver
 	var table func() map[RuleKey]int
 	var cleanup func()
